@@ -32,7 +32,7 @@ type Case struct {
 	Vals2 []string `json:"vals2,omitempty"` // second value (equality law)
 	In   string   `json:"in"`   // typed | string | json | json_ietf | xml | gnmi | gnmi-ascii
 	Mode string   `json:"mode"` // pure | pipeline | equal
-	Pad  bool     `json:"pad,omitempty"` // decimal64: lexical form with trailing zeros
+	Pad  bool     `json:"pad,omitempty"` // non-canonical lexical form: decimal64 with trailing zeros, integers with a leading zero
 }
 
 var typesNode = vlib.Lookup("types")
@@ -190,6 +190,13 @@ func lex(n *vlib.Node, d string, pad bool) string {
 		if pad && len(d)-strings.Index(d, ".")-1 < n.FracDigits {
 			return d + "0"
 		}
+	}
+	if pad && (strings.HasPrefix(typ, "int") || strings.HasPrefix(typ, "uint")) {
+		// RFC 7950 9.2.1: optional sign and a sequence of decimal digits; leading zeros are valid, just not canonical
+		if strings.HasPrefix(d, "-") {
+			return "-0" + d[1:]
+		}
+		return "0" + d
 	}
 	return d
 }
